@@ -24,7 +24,7 @@ type C01Case struct {
 	NegIdx bool    `json:"negidx"`
 	FwdIdx bool    `json:"fwdidx"`
 	Amb    int     `json:"amb,omitempty"` // ambient neutral settings (build.go AmbXxx)
-	Init   int     `json:"init"` // number of values pushed one by one before the program
+	Init   int     `json:"init"`          // number of values pushed one by one before the program
 	Ops    []C01Op `json:"ops"`
 }
 
